@@ -1048,13 +1048,13 @@ class AnsiString:
             value - the right-hand-side value as str or AnsiString
         Returns: self
         '''
-        if isinstance(value, str):
+        if isinstance(value, str) and not isinstance(value, AnsiStr):
             value = AnsiString(value)
-        elif isinstance(value, AnsiString):
+        elif isinstance(value, (AnsiString, AnsiStr)):
             # Work on a copy - merging at the seam rewrites the incoming marker lists. The copy gets its own setting
             # objects: a stop marker is tied to its setting by reference, so this string must not end up holding one
             # object in two places (copies and slices share their setting objects with their source).
-            value = value.copy()
+            value = AnsiString(value)
             unique = {}
             for point in value._fmts.values():
                 for lst in (point.add, point.rem):
